@@ -16,6 +16,10 @@ PIPE_NOTE = ('Trusted: the simulator (SimLoop keeps asyncio FIFO order; time mov
              "ndn's own network-layer decoders. Sampled, not exhaustive; abstains within 1.5 ms of a deadline tie.")
 
 ENGINES_META = [
+    {'name': 'svs', 'path': 'engines/svs.py', 'serves_properties': ['C18'],
+     'kind_free_text': 'one real SvsInst on a v2 NDNApp, scripted peers, simulated wall clock and scripted timer randomness'},
+    {'name': 'segfetch', 'path': 'engines/segfetch.py', 'serves_properties': ['C19'],
+     'kind_free_text': 'real segment_fetcher on a v1 NDNApp against a scripted lossy producer'},
     {'name': 'registration', 'path': 'engines/registration.py', 'serves_properties': ['C17'],
      'kind_free_text': 'real NfdRegister / v1 register+unregister on a simulated face against a reactive fake NFD with scripted replies'},
     {'name': 'framing', 'path': 'engines/framing.py', 'serves_properties': ['C06'],
@@ -81,6 +85,40 @@ CHECKS['C17'] = dict(
     stub=STUB_COMMON + ['the forwarder management module (engines/registration.py)'],
     rule='seed -> 1-8 register/unregister calls (many at the same instant), routes declared before/after connecting, optional '
          'reconnect, per-command reply policies; non-trivial: >=2 commands and >=1 fired fault; distinct = order signature of calls and commands')
+
+
+CHECKS['C19'] = dict(
+    engine='segfetch', design_ref='5 (C19)', level='exploration',
+    technique='deterministic simulation (virtual-time asyncio loop) + scripted lossy producer + reference walk of the retry policy',
+    text='Seeded search over object sizes (unsegmented, 1-12 segments), discovery answers (any segment / unsegmented), '
+         'FinalBlockId placement and per-segment reply patterns (lost, Nack, duplicate, delayed around the lifetime, rejected '
+         'by the validator); oracle = reference walk of the retry policy: exact yielded sequence, exact terminating '
+         'exception, exact number of Interests the producer sees per segment.',
+    note='Trusted: SimLoop, the scripted producer, the reference walk. Replies delayed to within 1.5 ms of (or beyond) the '
+         'Interest lifetime only get the safety checks (in-order prefix, no skip, no duplicate).',
+    real=REAL_COMMON + ['ndn.app_support.segment_fetcher', 'ndn.app.NDNApp (express_interest pipeline)', 'ndn.name_tree'],
+    stub=STUB_COMMON + ['the producer (engines/segfetch.py)'],
+    rule='seed -> object + discovery answer + per-segment reply pattern relative to retry_times (incl. exactly retry_times-1, '
+         'retry_times, retry_times+1 consecutive losses); non-trivial: >=2 segments and >=1 fired fault; distinct = order '
+         'signature of requests and yields')
+
+
+CHECKS['C18'] = dict(
+    engine='svs', design_ref='5 (C18)', level='exploration',
+    technique='deterministic simulation (virtual-time asyncio loop, simulated wall clock, scripted timer randomness) + '
+              'reference state-vector model stepped with the same events',
+    text='Seeded search over sequences of received vectors (newer, older, incomparable, over-claiming, malformed in 8 ways), '
+         'local publications, start/stop, placed relative to the suppression timer the instance will sample; oracle = '
+         'entry-wise-max model checked after every handled Interest, monotonicity checked after every loop step, callback iff '
+         'an entry was raised, publication emits the full vector promptly, suppression end emits iff local is newer than the '
+         'merge of the vectors heard.',
+    note='Trusted: SimLoop, the independent TLV reader/writer, the reference model. Vectors with a malformed entry among '
+         'valid ones are judged only for consistency (no raise, callback iff raised, no partial merge without callback); '
+         'the periodic (steady-state) timer is exercised but its emissions are not judged.',
+    real=REAL_COMMON + ['ndn.app_support.svs.sync.SvsInst', 'ndn.app_support.svs.tlv', 'ndn.appv2.NDNApp (handler dispatch, signed-Interest validation)'],
+    stub=STUB_COMMON + ['sync.time (simulated wall clock, 1 us granularity)', 'sync.secrets (scripted 16-bit sequence)', 'the sync group peers (scripted vectors)'],
+    rule='seed -> start + 2-10 events (vectors / publications / stop,start) aimed into the suppression window; non-trivial: '
+         '>=2 vectors and >=1 completed suppression period; distinct = order signature of rx/publish/tx')
 
 
 def run_check(prop, tier):
